@@ -269,7 +269,12 @@ def check_range(W, rec, L, h, supply, bs, method, ifrange=None):
     if h is not None:
         rec.nontrivial((L, h, supply, bs, method, ifrange))
     spy = None
-    if supply == "list":
+    if supply == "listempty":
+        # a list body with empty items (first, in the middle, last)
+        body = [b""]
+        for i in range(0, L, bs):
+            body += [res[i:i + bs], b""]
+    elif supply == "list":
         body = [res[i:i + bs] for i in range(0, L, bs)]
     elif supply == "gen":
         body = (res[i:i + bs] for i in range(0, L, bs))
@@ -424,7 +429,7 @@ def run(shard, rec, rng):
     IFR = [None, (True, '"x"'), (False, '"y"'), (True, http_date(T0)), (False, http_date(T0 - timedelta(seconds=5))), (False, "garbage")]
     for L in range(0, cfg["maxlen"] + 1):
         for h in RH:
-            for supply in ("list", "gen", "fw", "fwns"):
+            for supply in ("list", "listempty", "gen", "fw", "fwns"):
                 for bs in sorted({1, 2, 3, 7, L + 1}):
                     for method in ("GET", "POST", "HEAD"):
                         n += 1
